@@ -187,6 +187,11 @@ static void do_load (int id, int ndecl, char **decls) {
         MIR_append_insn (ctx, f, MIR_new_insn (ctx, MIR_MOV, MIR_new_reg_op (ctx, t), ref));
         MIR_append_insn (ctx, f, MIR_new_insn (ctx, MIR_MOV, MIR_new_reg_op (ctx, r),
                                                MIR_new_mem_op (ctx, MIR_T_I64, 0, t, 0, 1)));
+        /* the address itself goes to the second half of buf: it identifies the definition even
+           while its content (ref/expr data are filled by MIR_link) is not there yet */
+        MIR_append_insn (ctx, f, MIR_new_insn (ctx, MIR_MOV,
+                                               MIR_new_mem_op (ctx, MIR_T_I64, 8 * (MAX_IMPS + 1 + i), buf, 0, 1),
+                                               MIR_new_reg_op (ctx, t)));
         break;
       }
       MIR_append_insn (ctx, f, MIR_new_insn (ctx, MIR_MOV,
@@ -243,15 +248,31 @@ static void do_call (void) {
   out[0] = 0;
   for (int i = 0; i < n_mods; i++) {
     mod_t *md = &mods[i];
-    int64_t buf[MAX_IMPS + 1];
+    int64_t buf[2 * (MAX_IMPS + 1)];
     if (!md->done) continue;
-    for (int j = 0; j <= MAX_IMPS; j++) buf[j] = -1;
+    for (int j = 0; j < 2 * (MAX_IMPS + 1); j++) buf[j] = -1;
     ((void (*) (int64_t *)) md->entry->addr) (buf);
     len += snprintf (out + len, sizeof (out) - len, " m%d:", md->id);
     for (int j = 0; j < md->nimp; j++) {
-      int64_t mapped;
-      /* a value that is a known address (ref data pointing to a cell) is shown as its identity */
-      if (md->imp_use[j] == 'R' && find_addr ((void *) buf[j], &mapped)) buf[j] = mapped;
+      int64_t idv, m2;
+      if (md->imp_use[j] == 'R') {
+        /* identity of the address read; the content must equal it (a ref head yields the address of
+           a cell holding it) as soon as the defining module has been through an interface link */
+        int64_t content = buf[j], linked = 0;
+        if (!find_addr ((void *) buf[MAX_IMPS + 1 + j], &idv)) {
+          len += snprintf (out + len, sizeof (out) - len, "%s%c=!", j ? "," : "", md->imp_name[j]);
+          continue;
+        }
+        if (idv >= 100) linked = 1;
+        for (int q = 0; q < n_mods; q++)
+          if (mods[q].id == idv && mods[q].done) linked = 1;
+        if (linked && content != idv && !(find_addr ((void *) content, &m2) && m2 == idv)) {
+          len += snprintf (out + len, sizeof (out) - len, "%s%c=%ld!%ld", j ? "," : "", md->imp_name[j],
+                           (long) idv, (long) content);
+          continue;
+        }
+        buf[j] = idv;
+      }
       len += snprintf (out + len, sizeof (out) - len, "%s%c=%ld", j ? "," : "", md->imp_name[j],
                        (long) buf[j]);
     }
